@@ -28,6 +28,10 @@ type c12Case struct {
 	Sector int    `json:"sector"`
 	Label  string `json:"label"`
 	Prior  string `json:"prior,omitempty"` // filesystem type whose bytes are left in the range
+	// PriorTable: what the disk carried before it was partitioned: mbr | gpt | fat-wholedisk (a FAT32 over the
+	// whole disk, whose boot sector also ends in 55 AA); NoPMBR: the GPT is written without a protective MBR
+	PriorTable string `json:"prior_table,omitempty"`
+	NoPMBR     bool   `json:"no_pmbr,omitempty"`
 	// boundary mode: search [Lo,Hi] (sectors) for the sizes where CreateFilesystem flips between
 	// refusing and accepting, then run the recognition case at every sector within +-Win of each flip
 	Lo  int64 `json:"lo,omitempty"`
@@ -199,6 +203,18 @@ func c12Run(c core.Case, env *core.Env) core.Result {
 		return res
 	}
 	sizeSectors := p.Size / lss
+	switch p.PriorTable {
+	case "mbr":
+		d.Partition(&mbr.Table{LogicalSectorSize: p.Sector, PhysicalSectorSize: p.Sector, Partitions: []*mbr.Partition{{Index: 1, Type: mbr.Fat16, Start: 128, Size: 40000}, {Index: 2, Type: mbr.Linux, Start: 50000, Size: 1000}}})
+		core.Guard(func() { c12Make(d, 1, "fat16", "OLDMBR", gen.PRFBytes(3, 5000)) })
+		res.Mark("disk carried an MBR table before")
+	case "gpt":
+		d.Partition(&gpt.Table{LogicalSectorSize: p.Sector, PhysicalSectorSize: p.Sector, ProtectiveMBR: true, Partitions: []*gpt.Partition{{Index: 1, Start: 128, End: 40000, Type: gpt.LinuxFilesystem, Name: "old"}}})
+		res.Mark("disk carried a GPT before")
+	case "fat-wholedisk":
+		core.Guard(func() { c12Make(d, 0, "fat32", "OLDWHOLE", gen.PRFBytes(4, 5000)) })
+		res.Mark("disk carried a whole-disk FAT32 before")
+	}
 	switch p.Where {
 	case "gpt-gap", "gpt-last-slot":
 		t := &gpt.Table{LogicalSectorSize: p.Sector, PhysicalSectorSize: p.Sector, ProtectiveMBR: true,
@@ -218,7 +234,7 @@ func c12Run(c core.Case, env *core.Env) core.Result {
 			return res
 		}
 	case "gpt":
-		t := &gpt.Table{LogicalSectorSize: p.Sector, PhysicalSectorSize: p.Sector, ProtectiveMBR: true,
+		t := &gpt.Table{LogicalSectorSize: p.Sector, PhysicalSectorSize: p.Sector, ProtectiveMBR: !p.NoPMBR,
 			Partitions: []*gpt.Partition{{Index: 1, Start: uint64(startSectors), End: uint64(startSectors + sizeSectors - 1), Type: gpt.LinuxFilesystem, Name: "verif"}}}
 		if err := d.Partition(t); err != nil {
 			res.Inconclusive = "Partition(gpt): " + err.Error()
@@ -278,6 +294,15 @@ func c12Run(c core.Case, env *core.Env) core.Result {
 			return res
 		}
 		wantTable := strings.SplitN(p.Where, "-", 2)[0]
+		if wantTable == "mbr" && p.PriorTable == "gpt" && tb.Type() == "gpt" {
+			// an MBR written over a GPT leaves the GPT headers in place (writing a table touches only its own
+			// sectors, C03), and the bytes are then the same as those of a GPT written without protective MBR
+			// over an old MBR, which must be reported as GPT: no reader can tell the two apart. Recorded, not
+			// demanded (as in C02).
+			res.Count("recorded_not_demanded.mbr_over_stale_gpt_reported_as_gpt", 1)
+			res.Sig(p)
+			return res
+		}
 		if tb.Type() != wantTable {
 			fail("table-type", wantTable+"-reported-as-"+tb.Type(), "a %s disk is reported as %s", wantTable, tb.Type())
 			return res
@@ -441,7 +466,7 @@ func c12Cases(seed int64, tier string) []core.Case {
 		sizes["fat16"] = append(sizes["fat16"], 1<<30, 2<<30-512)
 		sizes["ext4"] = append(sizes["ext4"], 6<<20, 33<<20+1024, 200<<20)
 	}
-	labels := []string{"", "LABEL", "elevenchars", "lower case", "A B"}
+	labels := []string{"", "LABEL", "elevenchars", "lower case", "A B", "MY DISK 01", "SEVEN77 X"}
 	types := []string{"fat12", "fat16", "fat32", "ext4", "iso9660", "squashfs"}
 	for _, t := range types {
 		for i, sz := range sizes[t] {
@@ -476,6 +501,16 @@ func c12Cases(seed int64, tier string) []core.Case {
 			}
 		}
 	}
+	// re-partitioned disks: the table that is there now decides, whatever the disk carried before
+	for i, v := range []c12Case{
+		{Type: "ext4", Where: "gpt", NoPMBR: true, PriorTable: "mbr"}, {Type: "fat16", Where: "gpt", NoPMBR: true, PriorTable: "fat-wholedisk"},
+		{Type: "fat32", Where: "gpt", PriorTable: "mbr"}, {Type: "fat32", Where: "gpt", NoPMBR: true},
+		{Type: "fat16", Where: "mbr", PriorTable: "gpt"}, {Type: "ext4", Where: "mbr", PriorTable: "fat-wholedisk"},
+		{Type: "blank", Where: "gpt", NoPMBR: true, PriorTable: "mbr"}, {Type: "blank", Where: "mbr", PriorTable: "gpt"},
+	} {
+		v.Size, v.Sector, v.Label = 34<<20, 512, "REPART"
+		cs = append(cs, core.MkCase(fmt.Sprintf("repartitioned-%d-%s-over-%s", i, v.Where, v.PriorTable), "recognise-"+v.Type, r.Int63(), v))
+	}
 	// accept/refuse thresholds of the FAT types, located at run time, every sector size around them
 	win := int64(48)
 	wheres := []string{"whole"}
@@ -504,8 +539,8 @@ func init() {
 	core.Register(&core.Check{
 		ID:          "C12",
 		Level:       "exploration",
-		Rule:        "disk.CreateFilesystem(T, label) for T in {fat12, fat16, fat32, ext4, iso9660, squashfs} on the whole disk, in a GPT partition and in an MBR partition of a store-backed disk (also as GPT entry 4 with slots 2-3 unused - slot 2 must then not be a partition -, as GPT entry 128, and as the second MBR partition) (512-byte sectors; 4096 for iso9660/squashfs), sizes bracketing each type's limits and (thorough) stepping across the FAT cluster-count thresholds, labels {empty, upper, 11 chars, lower case, with space}; for the FAT types the sizes where CreateFilesystem flips between refusing and accepting are located at run time (geometric scan + bisection on a whole-disk range) and every sector size within +-48 (thorough +-160, also in partitions) of each flip is driven; one file is written (and the image finalized where needed); a freshly opened disk on the same bytes must report the table type, GetFilesystem(n).Type()==T, the label and the file's content; every ordered pair (previous type -> new type) is created in the same range without wiping; blank ranges must give the unknown-filesystem error. Non-trivial = filesystem accepted by CreateFilesystem and re-opened; distinct = distinct configuration",
-		Assumptions: []string{"fat12/fat16/ext4 accept only 512-byte sectors and iso9660/squashfs need 2048+/4096: stale-bytes pairs that cannot share a disk are not driven", "a refusal by CreateFilesystem is an observation"},
+		Rule:        "disk.CreateFilesystem(T, label) for T in {fat12, fat16, fat32, ext4, iso9660, squashfs} on the whole disk, in a GPT partition and in an MBR partition of a store-backed disk (also as GPT entry 4 with slots 2-3 unused - slot 2 must then not be a partition -, as GPT entry 128, and as the second MBR partition) (512-byte sectors; 4096 for iso9660/squashfs), sizes bracketing each type's limits and (thorough) stepping across the FAT cluster-count thresholds, labels {empty, upper, 11 chars, lower case, with a space, with a space at the 8th place}; disks that carried another table (MBR under a GPT written with and without protective MBR, GPT under an MBR, a whole-disk FAT32 under either) before being partitioned; for the FAT types the sizes where CreateFilesystem flips between refusing and accepting are located at run time (geometric scan + bisection on a whole-disk range) and every sector size within +-48 (thorough +-160, also in partitions) of each flip is driven; one file is written (and the image finalized where needed); a freshly opened disk on the same bytes must report the table type, GetFilesystem(n).Type()==T, the label and the file's content; every ordered pair (previous type -> new type) is created in the same range without wiping; blank ranges must give the unknown-filesystem error. Non-trivial = filesystem accepted by CreateFilesystem and re-opened; distinct = distinct configuration",
+		Assumptions: []string{"fat12/fat16/ext4 accept only 512-byte sectors and iso9660/squashfs need 2048+/4096: stale-bytes pairs that cannot share a disk are not driven", "a refusal by CreateFilesystem is an observation", "an MBR written over a GPT is still reported as GPT (the stale GPT headers are outside the MBR's own sectors and the bytes are indistinguishable from a GPT without protective MBR over an old MBR): recorded, not demanded"},
 		MinSigs:     map[string]int{"quick": 70, "thorough": 250},
 		NeedMarks:   []string{"fat12 on gpt-gap", "fat32 on gpt-last-slot", "ext4 on mbr-2nd", "fat12 accept/refuse flip found", "fat16 accept/refuse flip found", "fat32 accept/refuse flip found", "fat12 on whole", "fat16 on gpt", "fat32 on mbr", "ext4 on gpt", "iso9660 on whole", "squashfs on whole", "blank range"},
 		CPUSec:      600,
